@@ -20,6 +20,7 @@ bad=0
 sort $out | while IFS='|' read n nv props fail; do
   exp=""; ok=1
   case $n in
+    P-aol2-2) exp="C16-only(new limited field: see mutants/feat/EXPECTED.md)"; [ "$props" = "C16," ] || ok=0;;
     S*|R-*|P-*) [ "$nv" != 0 ] && ok=0; exp="silent";;
     F*) [ "$nv" = 0 ] && ok=0; exp="regression";;
     C*-*m*) p=${n%%-*}; exp="fires($p)"; echo "$props" | grep -q "$p" || { [ -d seeded/$n ] && [ "$nv" != 0 ] || ok=0; };;
